@@ -526,7 +526,585 @@ fn gen_model(rng: &mut Rng, cfg: &GenCfg) -> Model {
     Model { items, features, n_files: if rng.chance(1, 2) { 1 } else { rng.range(2, 3) } }
 }
 
-include!("c05_gen3.rs");
+// ------------------------------------------------------------------ single-fault mutations, labelled by rule
+
+/// where a list of directive applications lives
+#[derive(Clone, Debug)]
+enum Site { Schema(usize), Type(usize), Field(usize, usize), FieldArg(usize, usize, usize), EnumVal(usize, usize), InputField(usize, usize), DirArg(usize, usize) }
+
+fn sites(m: &Model) -> Vec<(Site, &'static str, &'static str)> {
+    let mut out = vec![];
+    for (i, it) in m.items.iter().enumerate() {
+        match it {
+            Item::S(_) => out.push((Site::Schema(i), "SCHEMA", "schema")),
+            Item::D(d) => for k in 0..d.args.len() { out.push((Site::DirArg(i, k), "ARGUMENT_DEFINITION", "directive_arg")); },
+            Item::T(t) => match &t.kind {
+                Kind::Scalar => out.push((Site::Type(i), "SCALAR", "scalar")),
+                Kind::Object { fields, .. } => {
+                    out.push((Site::Type(i), "OBJECT", "object"));
+                    for (j, f) in fields.iter().enumerate() {
+                        out.push((Site::Field(i, j), "FIELD_DEFINITION", "object_field"));
+                        for k in 0..f.args.len() { out.push((Site::FieldArg(i, j, k), "ARGUMENT_DEFINITION", "object_field_arg")); }
+                    }
+                }
+                Kind::Interface { fields, .. } => {
+                    out.push((Site::Type(i), "INTERFACE", "interface"));
+                    for (j, f) in fields.iter().enumerate() {
+                        out.push((Site::Field(i, j), "FIELD_DEFINITION", "interface_field"));
+                        for k in 0..f.args.len() { out.push((Site::FieldArg(i, j, k), "ARGUMENT_DEFINITION", "interface_field_arg")); }
+                    }
+                }
+                Kind::Union { .. } => out.push((Site::Type(i), "UNION", "union")),
+                Kind::Enum { values } => {
+                    out.push((Site::Type(i), "ENUM", "enum"));
+                    for j in 0..values.len() { out.push((Site::EnumVal(i, j), "ENUM_VALUE", "enum_value")); }
+                }
+                Kind::Input { fields } => {
+                    out.push((Site::Type(i), "INPUT_OBJECT", "input"));
+                    for j in 0..fields.len() { out.push((Site::InputField(i, j), "INPUT_FIELD_DEFINITION", "input_field")); }
+                }
+            },
+        }
+    }
+    out
+}
+fn site_dirs<'a>(m: &'a mut Model, s: &Site) -> &'a mut Vec<App> {
+    match *s {
+        Site::Schema(i) => if let Item::S(x) = &mut m.items[i] { &mut x.dirs } else { unreachable!() },
+        Site::Type(i) => if let Item::T(x) = &mut m.items[i] { &mut x.dirs } else { unreachable!() },
+        Site::DirArg(i, k) => if let Item::D(x) = &mut m.items[i] { &mut x.args[k].dirs } else { unreachable!() },
+        Site::Field(i, j) => match &mut m.items[i] { Item::T(TypeDef { kind: Kind::Object { fields, .. } | Kind::Interface { fields, .. }, .. }) => &mut fields[j].dirs, _ => unreachable!() },
+        Site::FieldArg(i, j, k) => match &mut m.items[i] { Item::T(TypeDef { kind: Kind::Object { fields, .. } | Kind::Interface { fields, .. }, .. }) => &mut fields[j].args[k].dirs, _ => unreachable!() },
+        Site::EnumVal(i, j) => match &mut m.items[i] { Item::T(TypeDef { kind: Kind::Enum { values }, .. }) => &mut values[j].dirs, _ => unreachable!() },
+        Site::InputField(i, j) => match &mut m.items[i] { Item::T(TypeDef { kind: Kind::Input { fields }, .. }) => &mut fields[j].dirs, _ => unreachable!() },
+    }
+}
+fn type_idx(m: &Model, f: impl Fn(&Kind) -> bool) -> Vec<usize> {
+    m.items.iter().enumerate().filter_map(|(i, it)| if let Item::T(t) = it { if f(&t.kind) { Some(i) } else { None } } else { None }).collect()
+}
+fn fields_mut(m: &mut Model, i: usize) -> (&'static str, &mut Vec<Field>) {
+    match &mut m.items[i] {
+        Item::T(TypeDef { kind: Kind::Object { fields, .. }, .. }) => ("object", fields),
+        Item::T(TypeDef { kind: Kind::Interface { fields, .. }, .. }) => ("interface", fields),
+        _ => unreachable!(),
+    }
+}
+fn implements_mut(m: &mut Model, i: usize) -> (&'static str, &mut Vec<String>) {
+    match &mut m.items[i] {
+        Item::T(TypeDef { kind: Kind::Object { implements, .. }, .. }) => ("object", implements),
+        Item::T(TypeDef { kind: Kind::Interface { implements, .. }, .. }) => ("interface", implements),
+        _ => unreachable!(),
+    }
+}
+fn is_comp(k: &Kind) -> bool { matches!(k, Kind::Object { .. } | Kind::Interface { .. }) }
+fn tname(m: &Model, i: usize) -> String { if let Item::T(t) = &m.items[i] { t.name.clone() } else { String::new() } }
+fn all_types_snapshot(m: &Model) -> Vec<TypeDef> { m.types().cloned().collect() }
+
+fn mutation_kinds() -> Vec<&'static str> {
+    vec!["reserved_type", "reserved_field", "reserved_arg", "reserved_input_field", "reserved_directive", "reserved_directive_arg",
+         "dup_field", "dup_arg", "dup_directive_arg", "dup_enum_value", "dup_union_member", "dup_input_field", "dup_type",
+         "unknown_field_type", "unknown_arg_type", "unknown_directive_arg_type", "unknown_input_field_type", "unknown_implements", "unknown_union_member",
+         "input_in_output", "output_in_arg", "output_in_directive_arg", "output_in_input_field",
+         "not_interface", "implements_self", "missing_transitive",
+         "iface_field_missing", "iface_field_type", "iface_arg_missing", "iface_arg_type", "iface_extra_required_arg",
+         "union_member_not_object",
+         "directive_unknown", "directive_misplaced", "directive_repeated",
+         "dirarg_wrong_literal", "dirarg_missing_required", "dirarg_unknown", "dirarg_not_needed", "dirarg_null", "dirarg_enum_member",
+         "dirarg_input_field", "dirarg_variable",
+         "directive_recursive_self", "directive_recursive_mutual", "directive_recursive_type",
+         // spec-invalid or odd documents outside the implemented rules: correspondence only (label x_*)
+         "x_cross_kind_dup", "x_dup_directive_def", "x_ext_without_original", "x_dup_dirarg_in_app", "x_int_out_of_range", "x_nested_type_recursion"]
+}
+
+/// a literal the specification rejects for `ty` (and nitrogql's rules as well)
+fn bad_lit(rng: &mut Rng, types: &[TypeDef], ty: &Ty) -> Option<String> {
+    match ty {
+        Ty::NonNull(t) | Ty::List(t) => bad_lit(rng, types, t).or_else(|| if matches!(ty, Ty::NonNull(_)) { Some("null".into()) } else { None }),
+        Ty::Named(n) => match n.as_str() {
+            "Int" => Some((*rng.pick(&["\"1\"", "1.5", "true", "X", "{a: 1}"])).to_string()),
+            "Float" => Some((*rng.pick(&["\"1\"", "true", "X"])).to_string()),
+            "String" => Some((*rng.pick(&["1", "true", "X", "1.5"])).to_string()),
+            "Boolean" => Some((*rng.pick(&["1", "\"true\"", "X"])).to_string()),
+            "ID" => Some((*rng.pick(&["1.5", "true", "X"])).to_string()),
+            _ => match types.iter().find(|t| &t.name == n).map(|t| &t.kind) {
+                Some(Kind::Enum { .. }) => Some((*rng.pick(&["\"V00\"", "1", "true", "{a: 1}"])).to_string()),
+                Some(Kind::Input { .. }) => Some((*rng.pick(&["1", "\"s\"", "X", "true"])).to_string()),
+                _ => None,
+            },
+        },
+    }
+}
+
+/// all applications (site, index in the list) of directives that declare at least one argument etc.
+fn apps_where(m: &Model, f: &dyn Fn(&App, &DirDef) -> bool) -> Vec<(Site, &'static str, usize)> {
+    let mut out = vec![];
+    let mut mm = m.clone();
+    for (s, _, tag) in sites(m) {
+        let ds = site_dirs(&mut mm, &s).clone();
+        for (k, a) in ds.iter().enumerate() { if let Some(d) = m.get_dir(&a.name) { if f(a, &d) { out.push((s.clone(), tag, k)); } } }
+    }
+    out
+}
+
+fn mutate(rng: &mut Rng, m: &mut Model, kind: &str) -> Option<(String, String)> {
+    let snapshot = all_types_snapshot(m);
+    let ok = |label: &str, site: &str| Some((label.to_string(), site.to_string()));
+    match kind {
+        "reserved_type" => {
+            // renaming every reference too keeps the fault single
+            let idx = type_idx(m, |_| true); if idx.is_empty() { return None; }
+            let i = *rng.pick(&idx); let old = tname(m, i); let new = format!("__{}", old);
+            let tag = m.kind_tag(&old);
+            rename_type(m, &old, &new);
+            ok("reserved_name", &format!("type_{tag}"))
+        }
+        "reserved_field" => {
+            let idx = type_idx(m, is_comp); let i = *rng.pick(&idx);
+            let (tag, fs) = fields_mut(m, i);
+            let cands: Vec<usize> = (0..fs.len()).filter(|j| fs[*j].root.is_none() || true).collect();
+            let j = *rng.pick(&cands);
+            let (old, root) = (fs[j].name.clone(), fs[j].root.clone());
+            let new = format!("__{}", old);
+            // rename the field in every type of its inheritance family so that only the reserved-name rule breaks
+            rename_field(m, &old, &root, &new);
+            ok("reserved_name", &format!("{tag}_field"))
+        }
+        "reserved_arg" => {
+            let idx = type_idx(m, is_comp); let i = *rng.pick(&idx);
+            let (tag, fs) = fields_mut(m, i);
+            let cands: Vec<usize> = (0..fs.len()).filter(|j| !fs[*j].args.is_empty()).collect(); if cands.is_empty() { return None; }
+            let j = *rng.pick(&cands); let k = rng.below(fs[j].args.len());
+            let (fname, root, old) = (fs[j].name.clone(), fs[j].root.clone(), fs[j].args[k].name.clone());
+            rename_arg(m, &fname, &root, &old, &format!("__{}", old));
+            ok("reserved_name", &format!("{tag}_field_arg"))
+        }
+        "reserved_input_field" => {
+            let idx = type_idx(m, |k| matches!(k, Kind::Input { .. })); if idx.is_empty() { return None; }
+            let i = *rng.pick(&idx);
+            // only fields no literal mentions (literals would become unknown fields): rename, then drop literals of that type by nulling nothing; choose a type unused in literals is hard, so fix the literals textually
+            let text = snapshot_model_text(&snapshot, m);
+            if let Item::T(TypeDef { kind: Kind::Input { fields }, .. }) = &mut m.items[i] {
+                let j = rng.below(fields.len());
+                if fields[j].ty.is_nonnull() && fields[j].default.is_none() { return None; }   // required fields appear in literals
+                let old = fields[j].name.clone();
+                if literal_mentions(&text, &format!("{}:", old)) { return None; }
+                fields[j].name = format!("__{}", old);
+            }
+            ok("reserved_name", "input_field")
+        }
+        "reserved_directive" => {
+            let idx: Vec<usize> = m.items.iter().enumerate().filter_map(|(i, it)| if matches!(it, Item::D(_)) { Some(i) } else { None }).collect();
+            if idx.is_empty() { return None; }
+            let i = *rng.pick(&idx);
+            let old = if let Item::D(d) = &m.items[i] { d.name.clone() } else { unreachable!() };
+            let new = format!("__{}", old);
+            if let Item::D(d) = &mut m.items[i] { d.name = new.clone(); }
+            for (s, _, _) in sites(&m.clone()) { for a in site_dirs(m, &s).iter_mut() { if a.name == old { a.name = new.clone(); } } }
+            ok("reserved_name", "directive")
+        }
+        "reserved_directive_arg" => {
+            let idx: Vec<usize> = m.items.iter().enumerate().filter_map(|(i, it)| if let Item::D(d) = it { if !d.args.is_empty() { Some(i) } else { None } } else { None }).collect();
+            if idx.is_empty() { return None; }
+            let i = *rng.pick(&idx);
+            let (dn, old, new);
+            if let Item::D(d) = &mut m.items[i] { let k = rng.below(d.args.len()); dn = d.name.clone(); old = d.args[k].name.clone(); new = format!("__{}", old); d.args[k].name = new.clone(); } else { unreachable!() }
+            for (s, _, _) in sites(&m.clone()) { for a in site_dirs(m, &s).iter_mut() { if a.name == dn { if let Some(xs) = &mut a.args { for x in xs.iter_mut() { if x.0 == old { x.0 = new.clone(); } } } } } }
+            ok("reserved_name", "directive_arg")
+        }
+        "dup_field" => {
+            let idx = type_idx(m, is_comp); let i = *rng.pick(&idx);
+            let (tag, fs) = fields_mut(m, i);
+            let j = rng.below(fs.len()); let mut c = fs[j].clone(); c.dirs.clear();
+            let at = rng.range(j + 1, fs.len()); fs.insert(at, c);
+            ok("dup_field", tag)
+        }
+        "dup_arg" => {
+            let idx = type_idx(m, is_comp); let i = *rng.pick(&idx);
+            let (tag, fs) = fields_mut(m, i);
+            let cands: Vec<usize> = (0..fs.len()).filter(|j| !fs[*j].args.is_empty()).collect(); if cands.is_empty() { return None; }
+            let j = *rng.pick(&cands); let k = rng.below(fs[j].args.len()); let mut c = fs[j].args[k].clone(); c.dirs.clear(); fs[j].args.push(c);
+            ok("dup_arg", &format!("{tag}_field"))
+        }
+        "dup_directive_arg" => {
+            let idx: Vec<usize> = m.items.iter().enumerate().filter_map(|(i, it)| if let Item::D(d) = it { if !d.args.is_empty() { Some(i) } else { None } } else { None }).collect();
+            if idx.is_empty() { return None; }
+            let i = *rng.pick(&idx);
+            if let Item::D(d) = &mut m.items[i] { let k = rng.below(d.args.len()); let mut c = d.args[k].clone(); c.dirs.clear(); d.args.push(c); }
+            ok("dup_arg", "directive")
+        }
+        "dup_enum_value" => {
+            let idx = type_idx(m, |k| matches!(k, Kind::Enum { .. })); if idx.is_empty() { return None; }
+            let i = *rng.pick(&idx);
+            if let Item::T(TypeDef { kind: Kind::Enum { values }, .. }) = &mut m.items[i] { let j = rng.below(values.len()); let mut c = values[j].clone(); c.dirs.clear(); values.push(c); }
+            ok("dup_enum_value", "enum")
+        }
+        "dup_union_member" => {
+            let idx = type_idx(m, |k| matches!(k, Kind::Union { .. })); if idx.is_empty() { return None; }
+            let i = *rng.pick(&idx);
+            if let Item::T(TypeDef { kind: Kind::Union { members }, .. }) = &mut m.items[i] { let j = rng.below(members.len()); let c = members[j].clone(); members.push(c); }
+            ok("dup_union_member", "union")
+        }
+        "dup_input_field" => {
+            let idx = type_idx(m, |k| matches!(k, Kind::Input { .. })); if idx.is_empty() { return None; }
+            let i = *rng.pick(&idx);
+            if let Item::T(TypeDef { kind: Kind::Input { fields }, .. }) = &mut m.items[i] { let j = rng.below(fields.len()); let mut c = fields[j].clone(); c.dirs.clear(); fields.push(c); }
+            ok("dup_input_field", "input")
+        }
+        "dup_type" => {
+            let idx = type_idx(m, |_| true); let i = *rng.pick(&idx);
+            let c = m.items[i].clone(); let tag = m.kind_tag(&tname(m, i));
+            let at = rng.below(m.items.len() + 1); m.items.insert(at, c);
+            ok("dup_type", tag)
+        }
+        "unknown_field_type" | "input_in_output" => {
+            let idx = type_idx(m, is_comp); let i = *rng.pick(&idx);
+            let repl = if kind == "unknown_field_type" { "Nowhere".to_string() } else { let ins = m.names_of(|k| matches!(k, Kind::Input { .. })); if ins.is_empty() { return None; } rng.pick(&ins).clone() };
+            let (tag, fs) = fields_mut(m, i);
+            // an own field nobody inherits, so that covariance of implementers is not disturbed: add a fresh field
+            let ty = { let mut t = wrap(rng, "Int"); t.set_base(&repl); t };
+            let at = rng.below(fs.len() + 1);
+            fs.insert(at, Field { name: "zz".into(), args: vec![], ty, dirs: vec![], desc: None, root: None });
+            ok(if kind == "unknown_field_type" { "unknown_type" } else { "input_in_output" }, &format!("{tag}_field"))
+        }
+        "unknown_arg_type" | "output_in_arg" => {
+            let idx = type_idx(m, is_comp); let i = *rng.pick(&idx);
+            let repl = if kind == "unknown_arg_type" { "Nowhere".to_string() } else { let outs = m.names_of(|k| matches!(k, Kind::Object { .. } | Kind::Interface { .. } | Kind::Union { .. })); rng.pick(&outs).clone() };
+            let (tag, fs) = fields_mut(m, i);
+            let ty = { let mut t = wrap(rng, "Int"); if let Ty::NonNull(x) = t { t = *x; } t.set_base(&repl); t };
+            let at = rng.below(fs.len() + 1);
+            fs.insert(at, Field { name: "zz".into(), args: vec![Arg { name: "za".into(), ty, default: None, dirs: vec![], desc: None }], ty: Ty::n("Int"), dirs: vec![], desc: None, root: None });
+            ok(if kind == "unknown_arg_type" { "unknown_type" } else { "output_in_input" }, &format!("{tag}_field_arg"))
+        }
+        "unknown_directive_arg_type" | "output_in_directive_arg" => {
+            let idx: Vec<usize> = m.items.iter().enumerate().filter_map(|(i, it)| if matches!(it, Item::D(_)) { Some(i) } else { None }).collect();
+            if idx.is_empty() { return None; }
+            let i = *rng.pick(&idx);
+            let repl = if kind == "unknown_directive_arg_type" { "Nowhere".to_string() } else { let outs = m.names_of(|k| matches!(k, Kind::Object { .. } | Kind::Interface { .. } | Kind::Union { .. })); rng.pick(&outs).clone() };
+            let ty = { let mut t = wrap(rng, "Int"); if let Ty::NonNull(x) = t { t = *x; } t.set_base(&repl); t };
+            if let Item::D(d) = &mut m.items[i] { d.args.push(Arg { name: "za".into(), ty, default: None, dirs: vec![], desc: None }); }
+            ok(if kind == "unknown_directive_arg_type" { "unknown_type" } else { "output_in_input" }, "directive_arg")
+        }
+        "unknown_input_field_type" | "output_in_input_field" => {
+            let idx = type_idx(m, |k| matches!(k, Kind::Input { .. })); if idx.is_empty() { return None; }
+            let i = *rng.pick(&idx);
+            let repl = if kind == "unknown_input_field_type" { "Nowhere".to_string() } else { let outs = m.names_of(|k| matches!(k, Kind::Object { .. } | Kind::Interface { .. } | Kind::Union { .. })); rng.pick(&outs).clone() };
+            let ty = { let mut t = wrap(rng, "Int"); if let Ty::NonNull(x) = t { t = *x; } t.set_base(&repl); t };
+            if let Item::T(TypeDef { kind: Kind::Input { fields }, .. }) = &mut m.items[i] { fields.push(Arg { name: "zz".into(), ty, default: None, dirs: vec![], desc: None }); }
+            ok(if kind == "unknown_input_field_type" { "unknown_type" } else { "output_in_input" }, "input_field")
+        }
+        "unknown_implements" | "not_interface" => {
+            let idx = type_idx(m, is_comp); let i = *rng.pick(&idx);
+            let me = tname(m, i);
+            let repl = if kind == "unknown_implements" { "Nowhere".to_string() } else {
+                let c: Vec<String> = m.types().filter(|t| !matches!(t.kind, Kind::Interface { .. }) && t.name != me).map(|t| t.name.clone()).chain(std::iter::once("Int".to_string())).collect();
+                rng.pick(&c).clone() };
+            let (tag, im) = implements_mut(m, i);
+            let at = rng.below(im.len() + 1); im.insert(at, repl);
+            ok(if kind == "unknown_implements" { "unknown_type" } else { "not_interface" }, &format!("{tag}_implements"))
+        }
+        "unknown_union_member" | "union_member_not_object" => {
+            let idx = type_idx(m, |k| matches!(k, Kind::Union { .. })); if idx.is_empty() { return None; }
+            let i = *rng.pick(&idx); let me = tname(m, i);
+            let repl = if kind == "unknown_union_member" { "Nowhere".to_string() } else {
+                let c: Vec<String> = m.types().filter(|t| !matches!(t.kind, Kind::Object { .. }) && (t.name != me || rng.chance(1, 3))).map(|t| t.name.clone()).chain(std::iter::once("String".to_string())).collect();
+                rng.pick(&c).clone() };
+            let tag = m.kind_tag(&repl);
+            if let Item::T(TypeDef { kind: Kind::Union { members }, .. }) = &mut m.items[i] { let at = rng.below(members.len() + 1); members.insert(at, repl); }
+            if kind == "unknown_union_member" { ok("unknown_type", "union_member") } else { ok("union_member_not_object", tag) }
+        }
+        "implements_self" => {
+            let idx = type_idx(m, |k| matches!(k, Kind::Interface { .. })); if idx.is_empty() { return None; }
+            let i = *rng.pick(&idx); let me = tname(m, i);
+            let (_, im) = implements_mut(m, i); let at = rng.below(im.len() + 1); im.insert(at, me);
+            ok("implements_self", "interface")
+        }
+        "missing_transitive" => {
+            // X implements J, J implements K: drop K from X
+            let mut cands = vec![];
+            for i in type_idx(m, is_comp) {
+                let im = match &m.items[i] { Item::T(TypeDef { kind: Kind::Object { implements, .. } | Kind::Interface { implements, .. }, .. }) => implements.clone(), _ => vec![] };
+                for j in &im { if let Some(TypeDef { kind: Kind::Interface { implements: ji, .. }, .. }) = m.get(j) { for k in ji { if im.contains(k) { cands.push((i, k.clone())); } } } }
+            }
+            if cands.is_empty() { return None; }
+            let (i, k) = rng.pick(&cands).clone();
+            let (tag, im) = implements_mut(m, i); im.retain(|x| x != &k);
+            ok("missing_transitive", tag)
+        }
+        "iface_field_missing" | "iface_field_type" | "iface_arg_missing" | "iface_arg_type" | "iface_extra_required_arg" => {
+            // (implementer index, field index) of inherited fields
+            let mut cands = vec![];
+            for i in type_idx(m, is_comp) {
+                let me = tname(m, i);
+                if let Item::T(TypeDef { kind: Kind::Object { fields, .. } | Kind::Interface { fields, .. }, .. }) = &m.items[i] {
+                    for (j, f) in fields.iter().enumerate() { if let Some((owner, _)) = &f.root { if owner != &me { cands.push((i, j)); } } }
+                }
+            }
+            if cands.is_empty() { return None; }
+            let (i, j) = *rng.pick(&cands);
+            // types further down that inherit through this one would break too (still the same rule); fine: >= 1 diagnostic is all that is asked
+            let (tag, fs) = fields_mut(m, i);
+            match kind {
+                "iface_field_missing" => { if fs.len() < 2 { return None; } fs.remove(j); ok("iface_field_missing", tag) }
+                "iface_field_type" => {
+                    let old = fs[j].ty.clone();
+                    let new = match rng.below(4) {
+                        0 => { let mut t = old.clone(); t.set_base(if old.base() == "Float" { "Boolean" } else { "Float" }); t }
+                        1 => if let Ty::NonNull(x) = &old { (**x).clone() } else { Ty::l(old.clone()) },
+                        2 => Ty::l(old.clone()),
+                        _ => match &old { Ty::List(x) => (**x).clone(), Ty::NonNull(x) => match &**x { Ty::List(y) => (**y).clone(), _ => Ty::l(old.clone()) }, _ => Ty::l(old.clone()) },
+                    };
+                    fs[j].ty = new; ok("iface_field_type", tag)
+                }
+                "iface_arg_missing" => {
+                    let inherited: Vec<usize> = (0..fs[j].args.len()).filter(|k| fs[j].args[*k].name != "x0").collect(); if inherited.is_empty() { return None; }
+                    let k = *rng.pick(&inherited); fs[j].args.remove(k); ok("iface_arg_missing", tag)
+                }
+                "iface_arg_type" => {
+                    let inherited: Vec<usize> = (0..fs[j].args.len()).filter(|k| fs[j].args[*k].name != "x0").collect(); if inherited.is_empty() { return None; }
+                    let k = *rng.pick(&inherited);
+                    let old = fs[j].args[k].ty.clone();
+                    fs[j].args[k].default = None;
+                    fs[j].args[k].ty = match rng.below(3) { 0 => if let Ty::NonNull(x) = &old { (**x).clone() } else { Ty::nn(old.clone()) }, 1 => Ty::l(old.clone()),
+                        _ => { let mut t = old.clone(); t.set_base(if old.base() == "Int" { "String" } else { "Int" }); t } };
+                    ok("iface_arg_type", tag)
+                }
+                _ => { fs[j].args.push(Arg { name: "zreq".into(), ty: Ty::nn(Ty::n("Int")), default: None, dirs: vec![], desc: None }); ok("iface_extra_required_arg", tag) }
+            }
+        }
+        "directive_unknown" | "directive_misplaced" => {
+            let ss = sites(m); let (s, loc, tag) = rng.pick(&ss).clone();
+            let app = if kind == "directive_unknown" { App { name: "nope".into(), args: if rng.chance(1, 2) { Some(vec![("a".into(), "1".into())]) } else { None } } } else {
+                let pool: Vec<DirDef> = m.dirs().cloned().chain(builtin_dirs()).filter(|d| !d.locations.iter().any(|l| l == loc)).collect();
+                if pool.is_empty() { return None; }
+                // do not create a recursion by accident: on directive arguments use built-in directives only
+                let pool: Vec<DirDef> = if matches!(s, Site::DirArg(..)) || true { let b: Vec<DirDef> = pool.iter().filter(|d| ["skip", "include", "deprecated", "specifiedBy", "nitrogql_ts_type"].contains(&d.name.as_str()) || d.name.starts_with('l')).cloned().collect(); if b.is_empty() { return None; } b } else { pool };
+                gen_app(rng, rng.clone().pick(&pool), &snapshot) };
+            let ds = site_dirs(m, &s);
+            if ds.iter().any(|a| a.name == app.name) { return None; }
+            let at = rng.below(ds.len() + 1); ds.insert(at, app);
+            ok(kind, tag)
+        }
+        "directive_repeated" => {
+            let c = apps_where(m, &|_, d| !d.repeatable); if c.is_empty() { return None; }
+            let (s, tag, k) = rng.pick(&c).clone();
+            let ds = site_dirs(m, &s); let a = ds[k].clone(); ds.push(a);
+            ok("directive_repeated", tag)
+        }
+        "dirarg_wrong_literal" | "dirarg_null" | "dirarg_enum_member" | "dirarg_input_field" | "dirarg_variable" | "x_int_out_of_range" => {
+            let c = apps_where(m, &|a, _| a.args.as_ref().map_or(false, |x| !x.is_empty())); if c.is_empty() { return None; }
+            let (s, tag, k) = rng.pick(&c).clone();
+            let app = site_dirs(m, &s)[k].clone(); let d = m.get_dir(&app.name)?;
+            let mut args = app.args.clone().unwrap();
+            let mut order: Vec<usize> = (0..args.len()).collect(); rng.shuffle(&mut order);
+            let mut done = false;
+            for x in order {
+                let Some(def) = d.args.iter().find(|a| a.name == args[x].0) else { continue };
+                let new = match kind {
+                    "dirarg_wrong_literal" => bad_lit(rng, &snapshot, &def.ty),
+                    "dirarg_null" => if def.ty.is_nonnull() { Some("null".to_string()) } else { None },
+                    "dirarg_variable" => Some("$v".to_string()),
+                    "x_int_out_of_range" => if def.ty.base() == "Int" { Some(match &def.ty { Ty::List(_) => "[2147483648]".to_string(), _ => "2147483648".to_string() }) } else { None },
+                    "dirarg_enum_member" => match snapshot.iter().find(|t| t.name == def.ty.base()).map(|t| &t.kind) { Some(Kind::Enum { .. }) => Some("NOT_A_MEMBER".to_string()), _ => None },
+                    _ => match snapshot.iter().find(|t| t.name == def.ty.base()).map(|t| &t.kind) {
+                        Some(Kind::Input { fields }) => {
+                            let req: Vec<&Arg> = fields.iter().filter(|f| f.ty.is_nonnull() && f.default.is_none()).collect();
+                            if !req.is_empty() && rng.chance(1, 2) { Some("{}".to_string()) }
+                            else { let mut parts: Vec<String> = req.iter().map(|f| format!("{}: {}", f.name, lit_nn(rng, &snapshot, &f.ty, 2))).collect(); parts.push("zzunknown: 1".into()); Some(format!("{{{}}}", parts.join(", "))) }
+                        }
+                        _ => None },
+                };
+                if let Some(n) = new { args[x].1 = n; done = true; break; }
+            }
+            if !done { return None; }
+            site_dirs(m, &s)[k].args = Some(args);
+            ok(if kind == "x_int_out_of_range" { "x_int_out_of_range" } else { "directive_args" }, &format!("{}:{}", &kind[if kind.starts_with("x_") { 2 } else { 7 }..], tag))
+        }
+        "dirarg_missing_required" => {
+            let c = apps_where(m, &|a, d| a.args.as_ref().map_or(false, |xs| xs.iter().any(|x| d.args.iter().any(|da| da.name == x.0 && da.ty.is_nonnull() && da.default.is_none()))));
+            if c.is_empty() { return None; }
+            let (s, tag, k) = rng.pick(&c).clone();
+            let app = site_dirs(m, &s)[k].clone(); let d = m.get_dir(&app.name)?;
+            let mut args = app.args.unwrap();
+            let x = (0..args.len()).find(|x| d.args.iter().any(|da| da.name == args[*x].0 && da.ty.is_nonnull() && da.default.is_none()))?;
+            args.remove(x);
+            site_dirs(m, &s)[k].args = if args.is_empty() { None } else { Some(args) };
+            ok("directive_args", &format!("missing_required:{tag}"))
+        }
+        "dirarg_unknown" | "x_dup_dirarg_in_app" => {
+            let c = apps_where(m, &|a, d| !d.args.is_empty() && (kind == "dirarg_unknown" || a.args.as_ref().map_or(false, |x| !x.is_empty()))); if c.is_empty() { return None; }
+            let (s, tag, k) = rng.pick(&c).clone();
+            let ds = site_dirs(m, &s);
+            let mut args = ds[k].args.clone().unwrap_or_default();
+            if kind == "dirarg_unknown" { let at = rng.below(args.len() + 1); args.insert(at, ("zzunknown".into(), "1".into())); }
+            else { let x = rng.below(args.len()); let c = args[x].clone(); args.push(c); }
+            ds[k].args = Some(args);
+            if kind == "dirarg_unknown" { ok("directive_args", &format!("unknown_arg:{tag}")) } else { ok("x_dup_dirarg_in_app", tag) }
+        }
+        "dirarg_not_needed" => {
+            let c = apps_where(m, &|_, d| d.args.is_empty());
+            if c.is_empty() {
+                // no argument-less directive in this model: add one and apply it
+                m.items.push(Item::D(DirDef { name: "noargs".into(), args: vec![], repeatable: false, locations: TS_LOCS.iter().map(|s| s.to_string()).collect(), desc: None }));
+                let ss = sites(m); let (s, _, tag) = rng.pick(&ss).clone();
+                site_dirs(m, &s).push(App { name: "noargs".into(), args: Some(vec![("a".into(), "1".into())]) });
+                return ok("directive_args", &format!("not_needed:{tag}"));
+            }
+            let (s, tag, k) = rng.pick(&c).clone();
+            site_dirs(m, &s)[k].args = Some(vec![("a".into(), "1".into())]);
+            ok("directive_args", &format!("not_needed:{tag}"))
+        }
+        "directive_recursive_self" | "directive_recursive_mutual" | "directive_recursive_type" | "x_nested_type_recursion" => {
+            // fresh directives, so the only fault is the recursion
+            let loc = |xs: &[&str]| xs.iter().map(|s| s.to_string()).collect::<Vec<_>>();
+            let arg = |n: &str, t: Ty, dirs: Vec<App>| Arg { name: n.into(), ty: t, default: None, dirs, desc: None };
+            let app = |n: &str| App { name: n.into(), args: None };
+            let at = rng.below(m.items.len() + 1);
+            match kind {
+                "directive_recursive_self" => {
+                    m.items.insert(at, Item::D(DirDef { name: "rec".into(), args: vec![arg("a", Ty::n("Int"), vec![]), arg("b", Ty::n("Int"), vec![app("rec")])], repeatable: false, locations: loc(&["ARGUMENT_DEFINITION", "OBJECT"]), desc: None }));
+                    ok("directive_recursive", "self")
+                }
+                "directive_recursive_mutual" => {
+                    m.items.insert(at, Item::D(DirDef { name: "reca".into(), args: vec![arg("a", Ty::n("Int"), vec![app("recb")])], repeatable: false, locations: loc(&["ARGUMENT_DEFINITION"]), desc: None }));
+                    let at2 = rng.below(m.items.len() + 1);
+                    m.items.insert(at2, Item::D(DirDef { name: "recb".into(), args: vec![arg("b", Ty::n("String"), vec![app("reca")])], repeatable: false, locations: loc(&["ARGUMENT_DEFINITION"]), desc: None }));
+                    ok("directive_recursive", "mutual")
+                }
+                "directive_recursive_type" => {
+                    let which = rng.below(4);
+                    let (tname_, tdef, site) = match which {
+                        0 => ("RecS", TypeDef { name: "RecS".into(), kind: Kind::Scalar, dirs: vec![app("rect")], desc: None, is_ext: false }, "via_scalar"),
+                        1 => ("RecE", TypeDef { name: "RecE".into(), kind: Kind::Enum { values: vec![EnumVal { name: "RV".into(), dirs: vec![app("rect")] }] }, dirs: vec![], desc: None, is_ext: false }, "via_enum_value"),
+                        2 => ("RecE", TypeDef { name: "RecE".into(), kind: Kind::Enum { values: vec![EnumVal { name: "RV".into(), dirs: vec![] }] }, dirs: vec![app("rect")], desc: None, is_ext: false }, "via_enum"),
+                        _ => ("RecIn", TypeDef { name: "RecIn".into(), kind: Kind::Input { fields: vec![arg("x", Ty::n("Int"), vec![app("rect")])] }, dirs: vec![], desc: None, is_ext: false }, "via_input_field"),
+                    };
+                    m.items.insert(at, Item::D(DirDef { name: "rect".into(), args: vec![arg("a", wrap(rng, tname_), vec![])], repeatable: false,
+                                                         locations: loc(&["SCALAR", "ENUM", "ENUM_VALUE", "INPUT_FIELD_DEFINITION"]), desc: None }));
+                    let at2 = rng.below(m.items.len() + 1);
+                    m.items.insert(at2, Item::T(tdef));
+                    ok("directive_recursive", site)
+                }
+                _ => {
+                    // @recn(a: RecOuter); input RecOuter { f: RecInner }; input RecInner { g: Int @recn }: recursion through a nested type
+                    m.items.insert(at, Item::D(DirDef { name: "recn".into(), args: vec![arg("a", Ty::n("RecOuter"), vec![])], repeatable: false, locations: loc(&["INPUT_FIELD_DEFINITION"]), desc: None }));
+                    m.items.push(Item::T(TypeDef { name: "RecOuter".into(), kind: Kind::Input { fields: vec![arg("f", Ty::n("RecInner"), vec![])] }, dirs: vec![], desc: None, is_ext: false }));
+                    m.items.push(Item::T(TypeDef { name: "RecInner".into(), kind: Kind::Input { fields: vec![arg("g", Ty::n("Int"), vec![app("recn")])] }, dirs: vec![], desc: None, is_ext: false }));
+                    ok("x_nested_type_recursion", "input_field_of_field_type")
+                }
+            }
+        }
+        "x_cross_kind_dup" => {
+            // a second definition of another kind with an existing name: exercises first-wins / last-wins lookups
+            let idx = type_idx(m, |_| true); let i = *rng.pick(&idx); let name = tname(m, i);
+            let kinds: Vec<Kind> = vec![Kind::Scalar, Kind::Enum { values: vec![EnumVal { name: "XV".into(), dirs: vec![] }] },
+                Kind::Object { implements: vec![], fields: vec![Field { name: "xf".into(), args: vec![], ty: Ty::n("Int"), dirs: vec![], desc: None, root: None }] },
+                Kind::Interface { implements: vec![], fields: vec![Field { name: "xf".into(), args: vec![], ty: Ty::n("Int"), dirs: vec![], desc: None, root: None }] },
+                Kind::Input { fields: vec![Arg { name: "xi".into(), ty: Ty::n("Int"), default: None, dirs: vec![], desc: None }] },
+                Kind::Union { members: m.names_of(|k| matches!(k, Kind::Object { .. })).into_iter().take(1).collect() }];
+            let cur = std::mem::discriminant(if let Item::T(t) = &m.items[i] { &t.kind } else { unreachable!() });
+            let c: Vec<Kind> = kinds.into_iter().filter(|k| std::mem::discriminant(k) != cur).collect();
+            let k = rng.pick(&c).clone();
+            let at = rng.below(m.items.len() + 1);
+            m.items.insert(at, Item::T(TypeDef { name, kind: k, dirs: vec![], desc: None, is_ext: false }));
+            ok("x_cross_kind_dup", "type")
+        }
+        "x_dup_directive_def" => {
+            let idx: Vec<usize> = m.items.iter().enumerate().filter_map(|(i, it)| if matches!(it, Item::D(_)) { Some(i) } else { None }).collect();
+            if idx.is_empty() { return None; }
+            let i = *rng.pick(&idx);
+            let mut c = if let Item::D(d) = &m.items[i] { d.clone() } else { unreachable!() };
+            match rng.below(3) { 0 => { c.locations = vec!["QUERY".into()]; } 1 => { c.args.clear(); } _ => { c.repeatable = !c.repeatable; } }
+            let at = rng.below(m.items.len() + 1); m.items.insert(at, Item::D(c));
+            ok("x_dup_directive_def", "directive")
+        }
+        "x_ext_without_original" => {
+            let k = match rng.below(4) { 0 => Kind::Scalar, 1 => Kind::Enum { values: vec![EnumVal { name: "XV".into(), dirs: vec![] }] },
+                2 => Kind::Object { implements: vec![], fields: vec![Field { name: "xf".into(), args: vec![], ty: Ty::n("Int"), dirs: vec![], desc: None, root: None }] },
+                _ => Kind::Input { fields: vec![Arg { name: "xi".into(), ty: Ty::n("Int"), default: None, dirs: vec![], desc: None }] } };
+            let dirs = if matches!(k, Kind::Scalar) { vec![App { name: "l0".into(), args: None }] } else { vec![] };
+            // either a name nobody defines, or the name of a type of another kind
+            let name = if rng.chance(1, 2) { "Orphan".to_string() } else { let c: Vec<String> = m.types().filter(|t| std::mem::discriminant(&t.kind) != std::mem::discriminant(&k)).map(|t| t.name.clone()).collect(); rng.pick(&c).clone() };
+            m.items.push(Item::T(TypeDef { name, kind: k, dirs, desc: None, is_ext: true }));
+            ok("x_ext_without_original", "type")
+        }
+        _ => None,
+    }
+}
+
+fn map_types(m: &mut Model, f: &dyn Fn(&mut Ty)) {
+    for it in m.items.iter_mut() {
+        match it {
+            Item::D(d) => for a in d.args.iter_mut() { f(&mut a.ty); },
+            Item::T(t) => match &mut t.kind {
+                Kind::Object { fields, .. } | Kind::Interface { fields, .. } => for fl in fields.iter_mut() { f(&mut fl.ty); for a in fl.args.iter_mut() { f(&mut a.ty); } },
+                Kind::Input { fields } => for a in fields.iter_mut() { f(&mut a.ty); },
+                _ => {}
+            },
+            Item::S(_) => {}
+        }
+    }
+}
+fn rename_type(m: &mut Model, old: &str, new: &str) {
+    map_types(m, &|t: &mut Ty| if t.base() == old { t.set_base(new) });
+    for it in m.items.iter_mut() {
+        match it {
+            Item::T(t) => {
+                if t.name == old { t.name = new.to_string(); }
+                match &mut t.kind {
+                    Kind::Object { implements, fields } | Kind::Interface { implements, fields } => {
+                        for i in implements.iter_mut() { if i == old { *i = new.to_string(); } }
+                        for f in fields.iter_mut() { if let Some((o, _)) = &mut f.root { if o == old { *o = new.to_string(); } } }
+                    }
+                    Kind::Union { members } => for i in members.iter_mut() { if i == old { *i = new.to_string(); } },
+                    _ => {}
+                }
+            }
+            Item::S(s) => for o in s.ops.iter_mut() { if o.1 == old { o.1 = new.to_string(); } },
+            Item::D(_) => {}
+        }
+    }
+}
+fn rename_field(m: &mut Model, old: &str, root: &Option<(String, String)>, new: &str) {
+    for it in m.items.iter_mut() {
+        if let Item::T(TypeDef { kind: Kind::Object { fields, .. } | Kind::Interface { fields, .. }, .. }) = it {
+            for f in fields.iter_mut() { if f.name == old && &f.root == root { f.name = new.to_string(); } }
+        }
+    }
+}
+fn rename_arg(m: &mut Model, fname: &str, root: &Option<(String, String)>, old: &str, new: &str) {
+    for it in m.items.iter_mut() {
+        if let Item::T(TypeDef { kind: Kind::Object { fields, .. } | Kind::Interface { fields, .. }, .. }) = it {
+            for f in fields.iter_mut() { if f.name == fname && &f.root == root { for a in f.args.iter_mut() { if a.name == old { a.name = new.to_string(); } } } }
+        }
+    }
+}
+fn snapshot_model_text(_types: &[TypeDef], m: &Model) -> String { render_model(m, &mut Rng::new(7)).join("\n") }
+fn literal_mentions(text: &str, needle: &str) -> bool {
+    // `name:` inside a `{ ... }` literal after `(`: conservative — any occurrence preceded by `{` or `, ` on a line containing '@' or '='
+    text.lines().any(|l| (l.contains('@') || l.contains(" = ")) && (l.contains(&format!("{{{}", needle)) || l.contains(&format!(", {}", needle))))
+}
+
+// ------------------------------------------------------------------ hand-written corpus (label, site, SDL)
+
+fn corpus() -> Vec<(&'static str, &'static str, &'static str)> {
+    vec![
+        ("valid", "corpus:deprecated_on_interface_field", "type Query { n: Node }\ninterface Node { id: ID! @deprecated }\n"),
+        ("unknown_type", "corpus:interface_field", "type Query { n: Node }\ninterface Node { id: Nope }\n"),
+        ("valid", "corpus:directive_reached_twice", "directive @a(x: Int @c, y: Int @c) on FIELD\ndirective @c on ARGUMENT_DEFINITION\ntype Query { a: Int }\n"),
+        ("directive_recursive", "corpus:self", "directive @a(x: Int @a) on ARGUMENT_DEFINITION\ntype Query { a: Int }\n"),
+        ("directive_recursive", "corpus:three_cycle", "directive @a(x: Int @b) on ARGUMENT_DEFINITION\ndirective @b(x: Int @c) on ARGUMENT_DEFINITION\ndirective @c(x: Int @a) on ARGUMENT_DEFINITION\ntype Query { a: Int }\n"),
+        ("valid", "corpus:diamond_no_cycle", "directive @a(x: Int @b @c) on FIELD\ndirective @b(x: Int @d) on ARGUMENT_DEFINITION\ndirective @c(x: Int @d) on ARGUMENT_DEFINITION\ndirective @d on ARGUMENT_DEFINITION\ntype Query { a: Int }\n"),
+        ("x_nested_type_recursion", "corpus:nested", "directive @r(a: Outer) on INPUT_FIELD_DEFINITION\ninput Outer { f: Inner }\ninput Inner { g: Int @r }\ntype Query { a: Int }\n"),
+        ("x_extra_nonnull_default", "corpus:extra_arg", "interface I { f: Int }\ntype Query implements I { f(extra: Int! = 3): Int }\n"),
+        ("x_cross_kind_dup", "corpus:first_last", "type A { x: Int }\nscalar A\nunion U = A\ntype Query { a: A, u: U }\ninput In { a: A }\n"),
+        ("x_cross_kind_dup", "corpus:last_first", "scalar A\ntype A { x: Int }\nunion U = A\ntype Query { a: A, u: U }\ninput In { a: A }\n"),
+        ("x_dup_dirarg_in_app", "corpus:dup_arg", "directive @d(x: Int) on OBJECT\ntype Query @d(x: 1, x: 2) { a: Int }\n"),
+        ("directive_args", "corpus:dup_input_field_literal", "directive @d(x: In) on OBJECT\ninput In { a: Int }\ntype Query @d(x: {a: 1, a: 2}) { a: Int }\n"),
+        ("valid", "corpus:list_coercion", "directive @d(x: [[Int]], y: [Int!]!, z: In) on OBJECT\ninput In { a: [In!], b: Float = 1 }\ntype Query @d(x: 1, y: [1, 2], z: {a: {a: [], b: 2}}) { a: Int }\n"),
+        ("directive_args", "corpus:nested_errors", "directive @d(z: In!) on OBJECT\nenum E { A }\ninput In { a: [In!], e: E!, r: Int! }\ntype Query @d(z: {a: [{e: B, r: \"x\"}], e: A, q: 1}) { a: Int }\n"),
+        ("x_int_out_of_range", "corpus:int_range", "directive @d(x: Int) on OBJECT\ntype Query @d(x: 2147483648) { a: Int }\n"),
+    ]
+}
 
 // ------------------------------------------------------------------ printing diagnostics as Coq terms
 
